@@ -481,24 +481,34 @@ Fixpoint sexec (n : nat) (vs : list string) (fn : string) (s : stmt) (fr : frame
         | Fuel => Fuel
         | Res (EX x) fr g => Res (IThrow x) fr g
         | Res (EV cv) fr g =>
-            let run_clause (b : stmt) (fr : frame) (g : glob) : res ictl :=
-              match sexec n' vs fn b fr g with
-              | Fuel => Fuel
-              | Res cb fr g => Res (switch_ctl cb) fr g
-              end in
+            (* runSwitchClause over the clauses in source order from the entry point: a body that runs
+               off its end falls through into the next clause; break / continue aimed at the switch
+               end it (IsBreak / IsContinue asked once), return and throw go outward *)
+            let run :=
+              (fix run (l : clauses) (fr : frame) (g : glob) : res ictl :=
+                 match l with
+                 | CLNil => Res INone fr g
+                 | CLCase _ b r | CLDefault b r =>
+                     match sexec n' vs fn b fr g with
+                     | Fuel => Fuel
+                     | Res cb fr g =>
+                         match cb with
+                         | INone => run r fr g
+                         | _ => Res (switch_ctl cb) fr g
+                         end
+                     end
+                 end) in
+            (* the case values are compared in source order (default takes no part); no match: the
+               default clause, wherever it stands (DefaultIndex), is the entry *)
             (fix cases (l : clauses) (fr : frame) (g : glob) : res ictl :=
                match l with
-               | CLNil =>
-                   match default_of cl None with
-                   | Some b => run_clause b fr g
-                   | None => Res INone fr g
-                   end
+               | CLNil => run (default_entry cl) fr g
                | CLDefault _ r => cases r fr g
-               | CLCase e b r =>
+               | CLCase e _ r =>
                    match ev e fr g with
                    | Fuel => Fuel
                    | Res (EX x) fr g => Res (IThrow x) fr g
-                   | Res (EV v) fr g => if switch_match cv v then run_clause b fr g else cases r fr g
+                   | Res (EV v) fr g => if switch_match cv v then run l fr g else cases r fr g
                    end
                end) cl fr g
         end
@@ -512,12 +522,9 @@ Fixpoint sexec (n : nat) (vs : list string) (fn : string) (s : stmt) (fr : frame
         | Fuel => Fuel
         end
     | SStatic x init =>                                           (* StaticVarStatement.GetValue *)
-        if String.eqb fn "" then
-          (* the main context has no static store: plain assignment of the initialiser *)
-          let '(fr', g') := swr vs fn x init fr g in Res INone fr' g'
-        else
-          let st := match sget (fn, x) (gstat g) with Some _ => gstat g | None => sset (fn, x) init (gstat g) end in
-          Res INone (fst fr, x :: snd fr) (set_stat st g)
+        (* the main script has a store of its own since /repo d3ebf7f *)
+        let st := match sget (fn, x) (gstat g) with Some _ => gstat g | None => sset (fn, x) init (gstat g) end in
+        Res INone (fst fr, x :: snd fr) (set_stat st g)
     | STry b cs f =>                                              (* TryStatement.GetValue *)
         match sexec n' vs fn b fr (mark CTry g) with                 (* ghost event: the try is entered *)
         | Fuel => Fuel
